@@ -366,7 +366,9 @@ def main(tier):
                "data['it']; None entries/columns skipped; later saves "
                "overwrite")
     nprobes = 2 * len(PROBE_ITS) * len(PROBE_VARS)
+    hs = runner.hashseed_children(PID, run) if tier == 'thorough' else []
     return run.finish({
+        'hash_seed_children': hs,
         'states': total['states'], 'transitions': total['transitions'],
         'traces_validated_against_impl': total['transitions'],
         'histories_pruned': total['pruned'],
